@@ -9,8 +9,8 @@ Model of the two textual expansions of the interpreter: macro argument substitut
 what the code does: `lex(song, &s, lineno); exec(song, &tokens)`), so a macro call produces the
 output of its substituted body by construction; the correspondence stream checks this on every run
 against the generator-side inlined program.  Theorems: the substitution leaves text without
-parameters untouched, replaces a parameter occurrence by the argument, handles ten and more
-arguments; the Rhythm expansion replaces exactly the letters that have a definition, copies
+parameters untouched, and in general (`C09_subst_general`) turns every body made of `#`-free texts and up to nine
+parameter references into that body with each reference replaced by its `#`-free argument; ten and more arguments by example; the Rhythm expansion replaces exactly the letters that have a definition, copies
 parenthesised spans and `Sub` verbatim; the built-in macros have their documented definitions. -/
 namespace Sakura.Props.C09
 open Sakura.Ex
@@ -132,5 +132,152 @@ theorem C09_builtin_macros :
 -- non-vacuity: "bh(c)b" with the built-in letters
 example : rhythmExpand (fun c => if c = 98 then cp "n36," else if c = 104 then cp "n42," else []) 20 (cp "bh(c)b2")
     = cp "n36,n42,cn36,2" := by decide
+
+/-! ## substitution in general (up to nine parameters)
+
+A body is written as text segments (without `#`) and parameter references `#?i`; `render n` is the body as written, `render 0` the
+body with every reference replaced by its argument. -/
+
+inductive Seg where
+  | txt (t : List Nat)
+  | par (i : Nat)
+
+/-- the text of a body while the parameters above `k` have been replaced already -/
+def render (k : Nat) (args : List (List Nat)) : List Seg → List Nat
+  | [] => []
+  | .txt t :: r => t ++ render k args r
+  | .par i :: r => (if k < i then args.getD (i - 1) [] else marker i) ++ render k args r
+
+def noHash (t : List Nat) : Prop := ∀ c ∈ t, c ≠ 35
+
+/-- texts and arguments contain no `#`; every reference names one of the (at most nine) arguments -/
+def WF (args : List (List Nat)) : List Seg → Prop
+  | [] => True
+  | .txt t :: r => noHash t ∧ WF args r
+  | .par i :: r => 1 ≤ i ∧ i ≤ args.length ∧ WF args r
+
+theorem digits_small : ∀ i, i < 10 → digits i = [48 + i] := by decide
+
+theorem marker_small (i : Nat) (h : i < 10) : marker i = [35, 63, 48 + i] := by
+  unfold marker; rw [digits_small i h]; rfl
+
+/-- a stretch without `#` is copied -/
+theorem replaceAll_skip (t : List Nat) (ht : noHash t) (p : List Nat) (rep X : List Nat) :
+    ∀ f, replaceAll (t.length + f) (t ++ X) (35 :: p) rep = t ++ replaceAll f X (35 :: p) rep := by
+  induction t with
+  | nil => intro f; simp
+  | cons c cs ih =>
+    intro f
+    have hc : c ≠ 35 := ht c List.mem_cons_self
+    have hnp : (35 :: p).isPrefixOf (c :: (cs ++ X)) = false := by
+      simp [List.isPrefixOf]; intro h; exact absurd h.symm hc
+    rw [show (c :: cs).length + f = (cs.length + f) + 1 by simp only [List.length_cons]; omega]
+    simp only [List.cons_append, replaceAll, List.isEmpty_cons, Bool.false_eq_true, if_false, hnp]
+    rw [ih (fun x hx => ht x (List.mem_cons_of_mem _ hx))]
+
+theorem replaceAll_nil (f : Nat) (p rep : List Nat) : replaceAll f [] (35 :: p) rep = [] := by
+  cases f <;> simp [replaceAll]
+
+/-- one replacement pass over the body: the references to parameter `k` become the argument, everything else stays -/
+theorem replace_pass (args : List (List Nat)) (ha : ∀ a ∈ args, noHash a) (k : Nat) (hk1 : 1 ≤ k) (hk9 : k < 10) :
+    ∀ (segs : List Seg), WF args segs → (∀ s ∈ segs, ∀ i, s = Seg.par i → i < 10) →
+    ∀ f, (render k args segs).length ≤ f →
+      replaceAll f (render k args segs) (marker k) (args.getD (k - 1) []) = render (k - 1) args segs := by
+  intro segs
+  induction segs with
+  | nil => intro _ _ f _; rw [marker_small k hk9]; simp [render, replaceAll_nil]
+  | cons s r ih =>
+    intro hw h9 f hf
+    have h9r : ∀ s ∈ r, ∀ i, s = Seg.par i → i < 10 := fun s hs i hi => h9 s (List.mem_cons_of_mem _ hs) i hi
+    rw [marker_small k hk9] at ih ⊢
+    cases s with
+    | txt t =>
+      obtain ⟨ht, hwr⟩ := hw
+      simp only [render, List.length_append] at hf ⊢
+      obtain ⟨g, rfl⟩ : ∃ g, f = t.length + g := ⟨f - t.length, by omega⟩
+      rw [replaceAll_skip t ht _ _ _ g, ih hwr h9r g (by omega)]
+    | par i =>
+      obtain ⟨hi1, hin, hwr⟩ := hw
+      have hi9 : i < 10 := h9 _ List.mem_cons_self i rfl
+      simp only [render, List.length_append] at hf ⊢
+      by_cases hki : k < i
+      · -- already replaced: the argument text is copied
+        have hkm : k - 1 < i := by omega
+        simp only [hki, hkm, if_true] at hf ⊢
+        have hai : noHash (args.getD (i - 1) []) := by
+          by_cases hlt : i - 1 < args.length
+          · rw [List.getD_eq_getElem?_getD, List.getElem?_eq_getElem hlt]; exact ha _ (List.getElem_mem hlt)
+          · omega
+        obtain ⟨g, rfl⟩ : ∃ g, f = (args.getD (i - 1) []).length + g := ⟨f - (args.getD (i - 1) []).length, by omega⟩
+        rw [replaceAll_skip _ hai _ _ _ g, ih hwr h9r g (by omega)]
+      · simp only [hki, if_false] at hf ⊢
+        rw [marker_small i hi9] at hf ⊢
+        simp only [List.length_cons, List.length_nil, List.cons_append, List.nil_append] at hf ⊢
+        by_cases hik : i = k
+        · -- the reference to parameter k: replaced
+          subst hik
+          have hkm : i - 1 < i := by omega
+          simp only [hkm, if_true]
+          obtain ⟨g, rfl⟩ : ∃ g, f = g + 1 := ⟨f - 1, by omega⟩
+          rw [replaceAll]
+          simp only [List.isEmpty_cons, Bool.false_eq_true, if_false]
+          have hp : ([35, 63, 48 + i] : List Nat).isPrefixOf (35 :: 63 :: (48 + i) :: render i args r) = true := by
+            simp [List.isPrefixOf]
+          simp only [hp, if_true, List.length_cons, List.length_nil, List.drop_succ_cons, List.drop_zero]
+          rw [ih hwr h9r g (by omega)]
+        · -- a reference to a lower parameter: left for a later pass
+          have hlt : i < k := by omega
+          have hkm : ¬ (k - 1 < i) := by omega
+          simp only [hkm, if_false]
+          obtain ⟨g, rfl⟩ : ∃ g, f = g + 3 := ⟨f - 3, by omega⟩
+          rw [replaceAll]
+          simp only [List.isEmpty_cons, Bool.false_eq_true, if_false]
+          have hp : ([35, 63, 48 + k] : List Nat).isPrefixOf (35 :: 63 :: (48 + i) :: render k args r) = false := by
+            simp [List.isPrefixOf]; omega
+          simp only [hp, Bool.false_eq_true, if_false, List.cons_append, List.nil_append]
+          have hskip := replaceAll_skip [63, 48 + i] (by intro c hc; simp at hc; rcases hc with rfl | rfl <;> omega) [63, 48 + k]
+            (args.getD (k - 1) []) (render k args r) g
+          simp only [List.length_cons, List.length_nil, List.cons_append, List.nil_append] at hskip
+          rw [show g + 2 = 0 + 1 + 1 + g by omega, hskip, ih hwr h9r g (by omega)]
+
+theorem wf_small (args : List (List Nat)) (hn : args.length < 10) : ∀ segs, WF args segs → ∀ s ∈ segs, ∀ i, s = Seg.par i → i < 10
+  | [], _, s, hs, _, _ => by cases hs
+  | .txt t :: r, hw, s, hs, i, hi => by
+    rcases List.mem_cons.1 hs with rfl | h
+    · cases hi
+    · exact wf_small args hn r hw.2 s h i hi
+  | .par j :: r, hw, s, hs, i, hi => by
+    rcases List.mem_cons.1 hs with rfl | h
+    · cases hi; have := hw.2.1; omega
+    · exact wf_small args hn r hw.2.2 s h i hi
+
+/-- **substitution in general**: for every body made of `#`-free texts and references `#?1 … #?n` (n ≤ 9) and all `#`-free arguments,
+    the interpreter's sequence of replacements turns the written body into the body with every reference replaced by its argument -/
+theorem C09_subst_general (args : List (List Nat)) (ha : ∀ a ∈ args, noHash a) (hn : args.length < 10) (segs : List Seg) (hw : WF args segs) :
+    substArgs (render args.length args segs) args = render 0 args segs := by
+  have h9 := wf_small args hn segs hw
+  unfold substArgs
+  suffices h : ∀ m, m ≤ args.length →
+      (List.range m).reverse.foldl (fun s i => replaceAll (s.length + 1) s (marker (i + 1)) (args.getD i [])) (render m args segs)
+        = render 0 args segs from h args.length (Nat.le_refl _)
+  intro m
+  induction m with
+  | zero => intro _; rfl
+  | succ m ih =>
+    intro hm
+    rw [List.range_succ, List.reverse_append, List.reverse_singleton, List.singleton_append, List.foldl_cons]
+    have := replace_pass args ha (m + 1) (by omega) (by omega) segs hw h9 ((render (m + 1) args segs).length + 1) (by omega)
+    simp only [Nat.add_sub_cancel] at this
+    rw [this]
+    exact ih (by omega)
+
+
+-- non-vacuity: `o#?1 c #?2 #?1` with the arguments `4` and `r8` is such a body
+example : WF [cp "4", cp "r8"] [.txt (cp "o"), .par 1, .txt (cp " c "), .par 2, .txt (cp " "), .par 1] ∧
+    render 2 [cp "4", cp "r8"] [.txt (cp "o"), .par 1, .txt (cp " c "), .par 2, .txt (cp " "), .par 1] = cp "o#?1 c #?2 #?1" ∧
+    render 0 [cp "4", cp "r8"] [.txt (cp "o"), .par 1, .txt (cp " c "), .par 2, .txt (cp " "), .par 1] = cp "o4 c r8 4" := by
+  refine ⟨?_, by decide, by decide⟩
+  simp only [WF, noHash, cp]
+  decide
 
 end Sakura.Props.C09
